@@ -53,6 +53,15 @@ package cmds
 //@        (!rDepsOptions.transitive ==> arg1 == graph.outEdges[labelOf(target)])
 //@   before_call PrintSortedLabels#1 [prints_the_filtered_list] arg1 == filteredRDeps
 
+// C13: `grog taint <patterns>` asks for a taint marker for EVERY selected target - with or without outputs, whatever its
+// tags (a target without outputs has a cached result like any other and would otherwise be served from it). TaintCmd.Run
+// is cmds.init$13.
+//@ func init$13(cmd, args) ()
+//@ loop #1
+//@   invariant [every_selected_target_so_far_was_tainted] forall j int :: {ranged()[j]} 0 <= j && j <= rangeindex && typeIs(ranged()[j], "*model.Target") ==>
+//@        has(taintRequested, "//" + asPtr(ranged()[j], "*model.Target").Label.Package + ":" + asPtr(ranged()[j], "*model.Target").Label.Name)
+//@   invariant [requests_only_grow] forall k string :: {has(taintRequested, k)} loopentry(has(taintRequested, k)) ==> has(taintRequested, k)
+
 // C10: "unlock removes the path unconditionally": the build command may only release a lock it holds. The deferred unlock
 // closure is created where the lock is held (proved at the defer statement); between that point and its execution this
 // process does not release the lock (assumed stable).
@@ -68,3 +77,7 @@ package cmds
 //@   before_call Exit#2 [nonzero_status] arg1 != 0
 //@   before_call Exit#3 [nonzero_status] arg1 != 0
 //@   before_call Exit#4 [nonzero_status] arg1 != 0
+// "... naming the failed targets": the loop that prints one line per failed target runs to its end - no iteration ends
+// the process (Fatalf, os.Exit) before the remaining failures were named
+//@ loop #3
+//@   completes [every_failed_target_is_named_before_exit]
